@@ -623,7 +623,9 @@ def legacy_rules(rep, model):
             f, UFN)
     for red, uname in (('sum', 'add'), ('prod', 'multiply'),
                        ('min', 'minimum'), ('max', 'maximum')):
-        for kw in ({}, {'axis': 1}, {'axis': 0, 'keepdims': True}):
+        for kw in ({}, {'axis': 1}, {'axis': 0, 'keepdims': True},
+                   {'dtype': DT('float32')},
+                   {'axis': 1, 'dtype': DT('float32')}):
             def f(red=red, uname=uname, kw=kw):
                 I, H = setup2()
                 x = tensor(H, 'x')
